@@ -3,13 +3,14 @@ package gen
 import (
 	"encoding/json"
 	"fmt"
+	"math"
 	"strings"
 
 	"verifsim/sdl"
 )
 
 var orderClasses = []string{"", "ordered", "priority"}
-var orderVals = []int{-2147483648, -7, -1, 0, 0, 1, 1, 2, 5, 2147483647}
+var orderVals = []int{math.MinInt, math.MinInt + 1, -2147483648, -7, -1, 0, 0, 1, 1, 2, 5, 2147483647, math.MaxInt - 1, math.MaxInt}
 
 // addSubstProcs adds 1-2 substituting post-processors with a wrap plan.
 func addSubstProcs(r rng, p *sdl.Program) {
@@ -137,6 +138,7 @@ func genClose(r rng, seed uint64, id string) *sdl.Program {
 var cfgLeafInts = []string{"sim.a", "sim.b", "sim.c", "sim.sub.a", "other.n"}
 var cfgLeafStrs = []string{"sim.name", "sim.sub.b", "other.tag"}
 var cfgStrVals = []string{"va", "vb", "vc"}
+var cfgSelVals = []string{"a", "b", "c"}
 
 func setPath(doc map[string]any, path string, v any) {
 	parts := splitDots(path)
@@ -180,6 +182,9 @@ func genDoc(r rng, density float64) map[string]any {
 		if r.p(density) {
 			setPath(doc, k, pick(r, cfgStrVals))
 		}
+	}
+	if r.p(density) {
+		setPath(doc, "other.sel", pick(r, cfgSelVals))
 	}
 	return doc
 }
@@ -225,6 +230,18 @@ func genConfig(r rng, seed uint64, id string, merge bool) *sdl.Program {
 		}
 		p.Sources = append(p.Sources, s)
 	}
+	// reload: a source added after Run, followed by a second initialisation
+	if merge && r.p(0.3) {
+		s := &sdl.Source{ID: fmt.Sprintf("src%d", ns), Kind: pick(r, []string{"sim", "sim", "raw", "file"}), Via: "AddLoaders", Doc: genDoc(r, 0.5), Late: true}
+		if s.Kind == "sim" {
+			s.OrderClass = pick(r, orderClasses)
+			s.Order = pick(r, []int{-3, 0, 1, 2})
+		}
+		if len(s.Doc) == 0 {
+			setPath(s.Doc, "sim.b", r.n(1, 9))
+		}
+		p.Sources = append(p.Sources, s)
+	}
 	// components with configuration fields
 	nt := r.n(1, 3)
 	for ti := 0; ti < nt; ti++ {
@@ -235,7 +252,7 @@ func genConfig(r rng, seed uint64, id string, merge bool) *sdl.Program {
 			if merge {
 				// precedence family: fields never make the start fail
 				cf.Optional, cf.Validate = true, ""
-				if cf.Menu == "sum" || cf.Menu == "mul" {
+				if cf.Menu == "sum" || cf.Menu == "mul" || cf.Menu == "nested" {
 					cf.Menu, cf.Keys, cf.GoType = "prefixStruct", []string{"sim.sub"}, "struct"
 				}
 			}
@@ -262,8 +279,10 @@ func genConf(r rng, field string) *sdl.Conf {
 		c.Menu, c.Keys, c.Default = "valueDef", []string{pick(r, cfgLeafInts)}, fmt.Sprint(r.n(0, 9))
 	case 2:
 		c.Menu, c.Keys = "prop", []string{pick(r, cfgLeafInts)}
-	case 3, 4:
+	case 3:
 		c.Menu, c.Keys = "sum", []string{pick(r, cfgLeafInts[:3]), pick(r, cfgLeafInts[:3])}
+	case 4:
+		c.Menu, c.Keys = "nested", []string{pick(r, cfgLeafInts[:3])}
 	case 5:
 		c.Menu, c.Keys = "mul", []string{pick(r, cfgLeafInts[:3]), pick(r, cfgLeafInts[:3])}
 	case 6:
@@ -309,14 +328,23 @@ func GenerateTwins(seed uint64, idFlat, idEmb string) (*sdl.Program, *sdl.Progra
 	p.Sources = []*sdl.Source{src}
 	ns := r.n(0, 2)
 	for i := 0; i < ns; i++ {
-		p.Scanners = append(p.Scanners, &sdl.Scanner{ID: fmt.Sprintf("scan%d", i), Tag: customTags[i]})
+		sc := &sdl.Scanner{ID: fmt.Sprintf("scan%d", i), Tag: customTags[i]}
+		if r.p(0.5) {
+			sc.NodeType = "Configuration"
+		}
+		p.Scanners = append(p.Scanners, sc)
 	}
 	for _, t := range p.Types {
 		for fi := 0; fi < r.n(0, 2); fi++ {
 			cf := genConf(r, fmt.Sprintf("C%d", fi))
 			cf.Optional, cf.Validate, cf.Embed = true, "", nil
-			if cf.Menu == "sum" || cf.Menu == "mul" {
+			if cf.Menu == "sum" || cf.Menu == "mul" || cf.Menu == "nested" {
 				cf.Menu, cf.Keys, cf.Default = "valueDef", []string{pick(r, cfgLeafInts)}, "1"
+			}
+			if len(p.Scanners) != 0 && r.p(0.35) {
+				// two recognised tags on one field
+				cf.Also = &sdl.Custom{Field: cf.Field, Tag: pick(r, p.Scanners).Tag, Val: pick(r, []string{"", "w1"}), Exported: true,
+					Args: [][]string{{"k9", "a"}}}
 			}
 			t.Config = append(t.Config, cf)
 		}
